@@ -58,6 +58,37 @@ pub struct Op {
     pub arg: u32,
 }
 
+pub const ALL_KINDS: [K; 24] = [
+    K::Insert,
+    K::EntryInsert,
+    K::EntryOrInsert,
+    K::EntryOrInsertWith,
+    K::EntryOrDefault,
+    K::EntryAndModifyOrInsert,
+    K::EntryMatch,
+    K::Remove,
+    K::RemoveKeepTree,
+    K::RemoveChildren,
+    K::Clear,
+    K::Retain,
+    K::GetMutWrite,
+    K::GetLpmMutWrite,
+    K::IterMutWrite,
+    K::ValuesMutWrite,
+    K::ChildrenMutWrite,
+    K::ViewSet,
+    K::ViewRemove,
+    K::ViewWrite,
+    K::CloneSelf,
+    K::Recollect,
+    K::IntoChildrenCollect,
+    K::RecollectRev,
+];
+
+pub fn kind_from_name(name: &str) -> Option<K> {
+    ALL_KINDS.iter().copied().find(|k| format!("{:?}", k) == name)
+}
+
 impl Op {
     /// operations that must not change the tree shape nor the set of stored prefixes
     pub fn value_only(&self) -> bool {
@@ -81,6 +112,10 @@ pub const NAV_NAMES: [&str; 8] = ["view_mut_at", "view_mut().find", "view_mut().
 
 pub struct Cx<'a> {
     pub uni: &'a Universe,
+    /// the exploration uses the canonical sub-alphabet only (insert / remove / retain / clear / collect)
+    pub canonical: bool,
+    /// thorough tier: more expensive variants of the observers
+    pub deep: bool,
 }
 
 pub fn obs<P: PType>(p: &P, v: &u32) -> Obs {
